@@ -1,29 +1,28 @@
+// probe: scratch program for looking at the implementation's behaviour by hand.
 package main
 
 import (
+	"encoding/json"
 	"fmt"
-	"sort"
+	"os"
 
 	"github.com/machship/mpath"
 )
 
 func main() {
-	fs := mpath.ListFunctions()
-	names := []string{}
-	for k := range fs {
-		names = append(names, string(k))
+	schema := `
+input: { _dependencies: [], name: string }
+variables: { x: string }
+s1: { _dependencies: ["s2"], result: string }
+s2: { _dependencies: ["s1"], result: string }
+s3: { _dependencies: [], result: string }
+`
+	q, cur := os.Args[1], os.Args[2]
+	tc, err := mpath.CueValidate(q, schema, cur)
+	fmt.Println("err:", err)
+	if tc != nil {
+		fmt.Println("HasErrors:", tc.HasErrors(), tc.GetErrors())
+		b, _ := json.MarshalIndent(tc, "", " ")
+		fmt.Println(string(b))
 	}
-	sort.Strings(names)
-	for _, n := range names {
-		d := fs[mpath.FT_FunctionType(n)]
-		ps := ""
-		for _, p := range d.Params {
-			ps += fmt.Sprintf("%s:%s/%s ", p.Name, p.Type, p.IOType)
-		}
-		fmt.Printf("%-20s on=%s/%s ret=%s/%s known=%v params=[%s]\n", n, d.ValidOn.Type, d.ValidOn.IOType, d.Returns.Type, d.Returns.IOType, d.ReturnsKnownValues, ps)
-	}
-	fmt.Println(len(names))
-	d := map[string]any{"m": map[any]any{nil: 1, "a": 2}}
-	op, _ := mpath.ParseString("$.m.a")
-	fmt.Println(op.Do(d, d))
 }
